@@ -48,7 +48,7 @@ man = {
         "guard": "asca_verif",
         "enable": "none needed: the checks add no instrumentation to /repo; facts are extracted with `cargo +nightly check` and RUSTC_WORKSPACE_WRAPPER=/verif/driver/target/release/asca-facts",
         "baseline_off_cmd": "cd /repo && cargo test --workspace --no-fail-fast --offline",
-        "source_commits": ["17ac8f7", "adea19f", "a8abec9", "64cbbb0"],
+        "source_commits": ["17ac8f7", "adea19f", "a8abec9", "64cbbb0", "8735a3e"],
         "add_only": True,
     },
     "engines": [
@@ -59,7 +59,7 @@ man = {
     ],
     "checks": checks,
     "not_applicable": na,
-    "notes": "Technique family: static analysis only. hooks.source_commits lists the three unguarded `fix:` commits (genuine defects repaired); there are no hook commits. Known findings: /verif/known_findings.json.",
+    "notes": "Technique family: static analysis only. hooks.source_commits lists the unguarded `fix:` commits (genuine defects repaired); there are no hook commits. Known findings: /verif/known_findings.json.",
 }
 json.dump(man, open(os.path.join(HERE, "..", "MANIFEST.json"), "w"), indent=1, ensure_ascii=False)
 print("claimed:", [c["property_id"] for c in checks])
